@@ -39,6 +39,9 @@ ASSUMPTIONS = [
 ]
 
 MARGIN = 0.1
+# smallest admitted ratio of singular values of the impact matrix: irispie solves the conditional simulation as a
+# Kalman smoothing problem (normal equations), so the recovered shocks carry the square of the condition number
+COND = 1e-3
 SOLVER = {"func_tolerance": 1e-10, "step_tolerance": float("inf"), "max_iterations": 200}
 
 
@@ -186,14 +189,14 @@ def _check(case):
             col.fail("impact:unanticipated_shock_moves_past", "an unanticipated shock changed an earlier period")
             col.done()
     sv = np.linalg.svd(M, compute_uv=False)
-    if sv[-1] <= 1e-6 * max(sv[0], 1e-12) or sv[0] < 1e-9:
+    if sv[-1] <= COND * max(sv[0], 1e-12) or sv[0] < 1e-9:
         return {"labels": ["impact_matrix_ill_conditioned"], "nontrivial": False}
     if mode == "unanticipated":
         # every date block must itself be well conditioned
         for d in {p[1] for p in pairs}:
             idx = [i for i, p in enumerate(pairs) if p[1] == d]
             s_ = np.linalg.svd(M[np.ix_(idx, idx)], compute_uv=False)
-            if s_[-1] <= 1e-6 * max(s_[0], 1e-12):
+            if s_[-1] <= COND * max(s_[0], 1e-12):
                 return {"labels": ["impact_matrix_ill_conditioned"], "nontrivial": False}
 
     # ---- truth ---------------------------------------------------------------------
